@@ -23,8 +23,8 @@ import traceback
 from typing import Any
 
 ROOT = os.path.dirname(os.path.dirname(os.path.abspath(__file__)))
-EVIDENCE_DIR = os.path.join(ROOT, "evidence")
-WITNESS_DIR = os.path.join(ROOT, "witness")
+EVIDENCE_DIR = os.environ.get("VERIF_EVIDENCE_DIR") or os.path.join(ROOT, "evidence")
+WITNESS_DIR = os.environ.get("VERIF_WITNESS_DIR") or os.path.join(ROOT, "witness")
 KNOWN_FILE = os.path.join(ROOT, "known_findings.json")
 PY = "/venv/bin/python"
 NCPU = int(os.environ.get("VERIF_NCPU", "16"))
